@@ -1329,7 +1329,7 @@ func (ce *clusterEnv) judge() {
 			prop = "C20"
 		}
 		if len(res.Res) != len(spec.Cmds) {
-			out.violate(prop, "result-count", "task %d call %d: %d results for %d commands", task, rec.Index, len(res.Res), len(spec.Cmds))
+			out.violate(prop, "result-count", "%stask %d call %d: %d results for %d commands", kindTag(spec.Kind), task, rec.Index, len(res.Res), len(spec.Cmds))
 			return
 		}
 		// the redirect rules are C19's; for a member of a batch they are C20's as well ("however the batch is ... redirected")
@@ -1420,7 +1420,7 @@ func (ce *clusterEnv) judge() {
 						lx := att[len(att)-1].ex
 						dbg = "; attempts " + attemptNodes(att) + "; last connection carried " + connTail(byConn[lx.Conn], minInt(connIdx[lx]+3, len(byConn[lx.Conn])-1), 9)
 					}
-					out.violate(prop, "wrong-reply", "task %d call %d cmd %d %q: got %s want %s%s", task, rec.Index, i, truncArgv(argv), truncStr(r.V.String(), 300), truncStr(normalize(exp, 3).String(), 300), dbg)
+					out.violate(prop, "wrong-reply", "%stask %d call %d cmd %d %q: got %s want %s%s", kindTag(spec.Kind), task, rec.Index, i, truncArgv(argv), truncStr(r.V.String(), 300), truncStr(normalize(exp, 3).String(), 300), dbg)
 				}
 			}
 			if !hasUID || len(att) == 0 {
@@ -1438,13 +1438,27 @@ func (ce *clusterEnv) judge() {
 						}
 					}
 				}
+				// errors the server gave to the control commands wrapped around this very command (CLIENT CACHING, MULTI,
+				// PTTL, EXEC): e.g. a node that answers MULTI with LOADING makes EXEC answer "ERR EXEC without MULTI"
+				ctl := false
+				for _, a := range att {
+					l := byConn[a.ex.Conn]
+					at := connIdx[a.ex]
+					for j := maxInt(0, at-4); j <= at+1 && j < len(l); j++ {
+						if _, isUID := uidOf(l[j].Argv); !isUID && l[j].Reply.IsErr() && l[j].Reply.S == r.V.S {
+							ctl = true
+						}
+					}
+				}
 				switch {
 				case own:
 					out.judged("error-is-the-commands-own")
 				case strings.HasPrefix(r.V.S, "EXECABORT") && !anyErr:
 					out.judged("execabort-without-own-error") // the transaction around the cached read was refused for another reason
+				case ctl && !strings.HasPrefix(r.V.S, "EXECABORT"):
+					out.judged("error-of-the-wrapping-transaction")
 				default:
-					out.violate(prop, "error-of-another-command", "task %d call %d cmd %d %q returned %s, which the cluster never answered to this command (its own answers: %s)", task, rec.Index, i, truncArgv(argv), truncStr(r.V.String(), 160), attemptNodes(att))
+					out.violate(prop, "error-of-another-command", "%stask %d call %d cmd %d %q returned %s, which the cluster never answered to this command (its own answers: %s)", kindTag(spec.Kind), task, rec.Index, i, truncArgv(argv), truncStr(r.V.String(), 160), attemptNodes(att))
 				}
 			}
 			// ---- C19: first attempt in stable plans ----
@@ -1661,6 +1675,14 @@ func (ce *clusterEnv) judge() {
 			ce.judgeTx(task, spec, rec, arrivals, byConn, connIdx)
 		}
 	})
+	// C11 (batched cache reads are positional) states for DoMultiCache / MGetCache / JsonMGetCache what C20 and C31 state
+	// for batches and helpers in general: the positional rules of those calls are reported under C11 as well
+	for _, v := range append([]Violation(nil), out.Violations...) {
+		cached := strings.Contains(v.Detail, "(mcache ") || strings.Contains(v.Detail, " mgetcache") || strings.Contains(v.Detail, " jmgetcache") || strings.HasPrefix(v.Detail, "[mcache]")
+		if cached && (v.Prop == "C20" || v.Prop == "C31") && (v.Rule == "wrong-reply" || v.Rule == "result-count" || v.Rule == "helper-key-set" || v.Rule == "helper-wrong-value" || v.Rule == "error-of-another-command") {
+			out.violate("C11", v.Rule, "%s", v.Detail)
+		}
+	}
 	out.Nontrivial = judgedCalls > 0 && len(w.Log) > 0
 	if cl.Stable {
 		out.probe("stable-topology")
@@ -1746,6 +1768,13 @@ func (ce *clusterEnv) judgeDedicated(task int, spec CallSpec, rec *sched.CallRec
 		}
 	}
 	out.probe("dedicated-cluster-session")
+}
+
+func kindTag(kind string) string {
+	if kind == "mcache" {
+		return "[mcache] "
+	}
+	return ""
 }
 
 func hasSlotless(cmds []CmdSpec) bool {
